@@ -587,6 +587,43 @@ fn c15_header_serialize() {
     core::mem::forget(h);
 }
 
+// @harness c15_header_serialize_backing
+// @props C15 C16
+// @tier quick
+// @cost 120
+// @timeout 1200
+// @cbmc --max-field-sensitivity-array-size 256
+// @desc a header that carries a backing file name and was parsed with ANY header_length (104-byte headers of older qemu, 72 for version 2, 112) is serialised to: the 112-byte header, the END extension, then the name; backing_file_offset points exactly at the name (120), backing_file_size is its length, header_length is rewritten to 112 -- so the re-parsed name is the same name
+// @bounds parsed header_length: any u32; backing file name of 2 bytes; no other extension; numeric fields concrete
+// @funcs Qcow2Header::serialize_to_buf Qcow2RawHeader::serialize_vec Qcow2Header::serialize_extensions
+// @stub alloc::fmt::format -> String::new()
+#[kani::proof]
+#[kani::unwind(10)]
+#[kani::stub(alloc::fmt::format, fmt_stub)]
+fn c15_header_serialize_backing() {
+    let parsed_len: u32 = kani::any();
+    let mut h = mk_header(16, 4, 1 << 30, 2, 1, false);
+    h.raw.header_length = parsed_len;
+    h.backing_filename = Some(String::from("ab"));
+    let out = h.serialize_to_buf();
+    assert!(out.is_ok());
+    if let Ok(bytes) = &out {
+        assert!(bytes.len() == 122);
+        let be32 = |at: usize| u32::from_be_bytes([bytes[at], bytes[at + 1], bytes[at + 2], bytes[at + 3]]);
+        // backing_file_offset (u64 at 8), backing_file_size (u32 at 16), header_length (u32 at 100)
+        assert!(be32(8) == 0 && be32(12) == 120);
+        assert!(be32(16) == 2);
+        assert!(be32(100) == 112);
+        // END extension at 112, name right behind it
+        assert!(be32(112) == 0 && be32(116) == 0);
+        assert!(bytes[120] == b'a' && bytes[121] == b'b');
+        kani::cover!(parsed_len == 104);
+        kani::cover!(parsed_len == 72);
+    }
+    core::mem::forget(out);
+    core::mem::forget(h);
+}
+
 macro_rules! ext_walk {
     ($name:ident, $len:expr) => {
         #[kani::proof]
